@@ -436,8 +436,14 @@ def check_server(ctx, facts, rule):
         add_svc = [b for b in ms if b.name.endswith('::Server::add_service')]
         rem_svc = [b for b in ms if b.name.endswith('::Server::remove_service')]
         add_h = [b for b in ms if '::ServiceRegistry::' in b.name and b.argc == 1 and b.local_ty(1).startswith('&mut ') and b.local_ty(0) == '()']
-        lookup = [b for b in ms if b.argc == 2 and b.local_ty(2) in ('&str', '&alloc::string::String') and b.local_ty(0).startswith('core::option::Option<')
-                  and 'OpaqueMessageHandler' in b.local_ty(0) and b.local_ty(1).startswith('&')]
+        def answers_with_handler(ty):
+            # Option<Arc<dyn OpaqueMessageHandler>>, or a private verdict enum one variant of which carries the handler
+            if ty.startswith('core::option::Option<') and 'OpaqueMessageHandler' in ty:
+                return True
+            a_ = facts.adts.get(ty_head(ty))
+            return bool(a_ is not None and a_['kind'] == 'enum' and a_['def'].startswith('datacake_rpc') and
+                        any('OpaqueMessageHandler' in f_['ty'] for v_ in a_['variants'] for f_ in v_['fields']) and any(not v_['fields'] for v_ in a_['variants']))
+        lookup = [b for b in ms if b.argc == 2 and b.local_ty(2) in ('&str', '&alloc::string::String') and answers_with_handler(b.local_ty(0)) and b.local_ty(1).startswith('&')]
         if len(add_svc) != 1 or len(rem_svc) != 1 or len(add_h) != 1 or len(lookup) != 1:
             raise Unmodelled('Server::add_service / remove_service / ServiceRegistry::add_handler / the path lookup not identified (%d/%d/%d/%d)' % (
                 len(add_svc), len(rem_svc), len(add_h), len(lookup)))
@@ -478,9 +484,15 @@ def check_server(ctx, facts, rule):
                             reg.pop(k, None)
                     for (sn, pa) in URIS:
                         r = it.deref_all(it.run_body(lookup[0], [('ref', Cell(st)), ('ref', Cell(('key', 'U(%s,%s)' % (sn, pa))))]))
-                        got = find_instance(it, r[3][0].v) if (r is not None and r[0] == 'adt' and r[2] == 1 and r[3]) else None
-                        if r is not None and r[0] == 'adt' and r[2] == 1 and got is None:
-                            got = '?'
+                        if r is not None and r[0] == 'adt' and r[1] == 'core::option::Option':
+                            got = find_instance(it, r[3][0].v) if (r[2] == 1 and r[3]) else None
+                            if r[2] == 1 and got is None:
+                                got = '?'
+                        else:
+                            # a verdict enum: the variant that carries a handler names the instance, the field-less one is "unknown"
+                            got = find_instance(it, r) if r is not None else None
+                            if r is not None and r[0] == 'adt' and r[3] and got is None:
+                                got = '?'
                         want = reg.get((sn, pa))
                         if got != want and bad is None:
                             bad = (seq[:seq.index(opn) + 1] if opn in seq else seq, (sn, pa), got, want)
